@@ -176,7 +176,10 @@ struct TsGen
   {
     TsCase c;
     c.gmt = r.chance(1, 2);
-    uint32_t n = static_cast<uint32_t>(r.range(1, 7));
+    // one pattern in ten is long: dozens of conversions and literal runs, so that a part expands to hundreds of
+    // characters (several growth steps of any fixed-size scratch buffer)
+    bool const long_pattern = r.chance(1, 10);
+    uint32_t n = static_cast<uint32_t>(long_pattern ? r.range(20, 70) : r.range(1, 7));
     int frac_at = r.chance(3, 4) ? static_cast<int>(r.below(n + 1)) : -1;
     bool lpp = false;
     std::string classes;
@@ -201,6 +204,7 @@ struct TsGen
     c.part1 = p1;
     c.part2 = p2;
     c.pattern = p1 + (c.frac == 3 ? "%Qms" : c.frac == 6 ? "%Qus" : c.frac == 9 ? "%Qns" : "") + p2;
+    if (long_pattern) classes += "G";
     std::sort(classes.begin(), classes.end());
     classes.erase(std::unique(classes.begin(), classes.end()), classes.end());
     c.klass = classes;
